@@ -621,8 +621,8 @@ func ruleR14(c *Ctx) *RuleResult {
 						if storeToField(ef, "position") && (ef.Args[1].String() == posC(0) || ef.Args[1].String() == posC(2)) {
 							setsSentinel = true
 						}
-						if storeToField(ef, "node") && ef.Args[1].String() == "#:nil" {
-							setsNil = true
+						if storeToField(ef, "node") && (ef.Args[1].String() == "#:nil" || knownNil(g, ef.Args[1])) {
+							setsNil = true // literally nil, or a value the path has tested to be nil
 						}
 					}
 					for _, a := range g.Guards {
